@@ -307,7 +307,7 @@ def rsa_base(kid):
     elif kid == "fix512r":                       # the factors in the other order (construct() takes either)
         t = rsa_derive(RSA512[1], RSA512[0], 65537)
     elif kid == "fix768":
-        t = rsa_derive(RSA768[0], RSA768[1], 17)
+        t = rsa_derive(RSA768[0], RSA768[1], 5)
     elif kid == "gen1024":
         k = RSA.generate(1024, randfunc=Tape("rsa-base"))
         t = rsa_derive(k.p, k.q, k.e)
@@ -855,7 +855,7 @@ def ec_base(kid):
     cv = curve(name)
     r = random.Random("%d/c05/ec-base/%s" % (SEED, kid))
     if cv.kind == "ws":
-        d = (r.getrandbits(20) | (1 << 19)) if size == "short" else r.randrange(1 << (cv.n.bit_length() - 2), cv.n)
+        d = 1 if size == "one" else (r.getrandbits(20) | (1 << 19)) if size == "short" else r.randrange(1 << (cv.n.bit_length() - 2), cv.n)
         Q, _ = mul_links(cv, d)
         t = {"c": name, "enc": name, "d": d, "x": Q[0], "y": Q[1]}
     elif cv.kind == "ed":
@@ -1003,7 +1003,317 @@ def ws_case(item, deep):
             "exc": exc, "key": rec, "kwq": kcw, "cost": 30 + len(links) * (cv.p.bit_length() // 16) // 2}
 
 
-CASE_FUNCS = {"rsa": rsa_case, "dsa": dsa_case, "elgamal": eg_case, "ws": ws_case}
+# ------------------------------------------------------------------------------------------ Edwards curves
+def ed_order4(cv):
+    """a point of order 4: (1, 0) where a = 1 (Ed448), (sqrt(-1), 0) where a = -1 (Ed25519)"""
+    return (sqrt_mod(cv.p - 1, cv.p), 0) if cv.aneg else (1, 0)
+
+
+def ed_corr(c, t, r):
+    t = dict(t)
+    cv = curve(t["c"])
+    p = cv.p
+    if c == "y+1":
+        t["y"] = (t["y"] + 1) % p
+    elif c == "x+p":
+        t["x"] += p
+    elif c == "y+p":
+        t["y"] += p
+    elif c == "neutral":
+        t["x"], t["y"] = 0, 1
+    elif c == "order 2":
+        t["x"], t["y"] = 0, p - 1
+    elif c == "order 4":
+        t["x"], t["y"] = ed_order4(cv)
+    elif c == "other seed":
+        if len(t["seed"]) == cv.seedlen:
+            old = t["seed"]
+            while t["seed"] == old:
+                t["seed"] = bytes(r.getrandbits(8) for _ in range(cv.seedlen))
+    elif c == "Q:=2Q":
+        if ed_on(cv, (t["x"], t["y"])):
+            (t["x"], t["y"]), _ = ed_add(cv, (t["x"], t["y"]), (t["x"], t["y"]))
+    elif c == "-Q":
+        t["x"] = (p - t["x"] % p) % p
+    elif c == "seed short":
+        t["seed"] = (t["seed"] + b"\x00")[:cv.seedlen - 1]
+    elif c == "seed long":
+        t["seed"] = (t["seed"] + b"\x00\x00")[:cv.seedlen + 1]
+    elif c == "(0,p+1)":
+        t["x"], t["y"] = 0, p + 1
+    elif c == "(1,1)":
+        t["x"], t["y"] = 1, 1
+    else:
+        raise ValueError("unknown Edwards corruption %r" % c)
+    return t
+
+
+def ed_encode(cv, x, y):
+    """RFC 8032 5.1.2 / 5.2.2: (encoding, the ordinate the decoder reads, sign bit, the unused bits of the last octet) or None when y does not
+    fit.  Ed25519: y in 255 bits, the sign in bit 255.  Ed448: y in 56 octets, a 57th octet with the sign in its top bit; ordinates of up to
+    455 bits are expressed by setting the seven unused bits (junk)."""
+    if x < 0 or y < 0:
+        return None
+    sign = x & 1
+    if cv.aneg:
+        if y >= 1 << 255:
+            return None
+        return (y | (sign << 255)).to_bytes(32, "little"), y, sign, 0
+    junk = y >> 448
+    if junk >= 128:
+        return None
+    ylow = y & ((1 << 448) - 1)
+    return ylow.to_bytes(56, "little") + bytes([(sign << 7) | junk]), ylow, sign, junk
+
+
+def ed_root_w(cv, y, sign):
+    """untrusted witness of KeyInvariants!KiEdDecode: the root with that sign, or the Jacobi quotients of (y^2 - 1)(d y^2 - a); and the decoded x"""
+    p = cv.p
+    root = dict(NOROOT)
+    if not 0 <= y < p:
+        return root, None
+    a = -1 if cv.aneg else 1
+    u = (y * y - 1) % p
+    v = (cv.d * y * y - a) % p
+    if u == 0:
+        return root, (0 if sign == 0 else None)
+    xr = sqrt_mod(u * pow(v, -1, p) % p, p)
+    if xr is None:
+        root["qs"] = jacobi_quotients(u * v % p, p)
+        return root, None
+    if xr & 1 != sign:
+        xr = p - xr
+    root["x"] = limbs(xr)
+    return root, xr
+
+
+def ed_case(item, deep):
+    r = random.Random("%d/c05/ed/%s" % (SEED, item["cid"]))
+    t = ec_base(item["kid"])
+    for c in item["corr"]:
+        t = ed_corr(c, t, r)
+    form, variant = item["form"], item.get("variant", "der")
+    cv = curve(t["c"])
+    seed, x, y = t["seed"], t["x"], t["y"]
+    hasseed = form in ("construct:seed", "construct:seedQ", "import:pkcs8")
+    hasq = form not in ("construct:seed", "import:pkcs8")
+    enc_kind, par, junk, root, yoff = "xy", (x & 1 if x >= 0 else 0), 0, dict(NOROOT), y
+    Qv = (x, y)
+    oid = CURVE_OID[cv.name]
+    if form == "construct:pub":
+        call = lambda: ECC.construct(curve=cv.lib, point_x=x, point_y=y)  # noqa: E731
+    elif form == "construct:seed":
+        call = lambda: ECC.construct(curve=cv.lib, seed=seed)  # noqa: E731
+    elif form == "construct:seedQ":
+        call = lambda: ECC.construct(curve=cv.lib, seed=seed, point_x=x, point_y=y)  # noqa: E731
+    elif form == "import:pkcs8":
+        body = pkcs8(oid, b"", der_octets(seed))
+        enc = body if variant == "der" else pem(body, "PRIVATE KEY")
+        call = lambda: ECC.import_key(enc)  # noqa: E731
+    elif form in ("import:spki", "import:openssh"):
+        e = ed_encode(cv, x, y)
+        if e is None or (form == "import:openssh" and cv.name != "Ed25519"):
+            return None                           # not expressible in the format
+        point, yoff, par, junk = e
+        enc_kind = "rfc8032"
+        if form == "import:spki":
+            body = spki(oid, b"", point)
+            enc = body if variant == "der" else pem(body, "PUBLIC KEY")
+        else:
+            enc = b"ssh-ed25519 " + base64.b64encode(ssh_str(b"ssh-ed25519") + ssh_str(point)) + b" comment"
+        call = lambda: ECC.import_key(enc)  # noqa: E731
+        root, xr = ed_root_w(cv, yoff, par)
+        Qv = (xr, yoff) if xr is not None else (-1, -1)
+    else:
+        raise ValueError(form)
+    key, exc = attempt(call)
+    rec, kcw = ec_key_record(cv, key)
+    links = []
+    if hasseed and len(seed) == cv.seedlen and ((not hasq and key is not None) or (hasq and ed_on(cv, Qv))):
+        _, links = mul_links(cv, ed_scalar(cv, seed))
+    return {"fam": "ec", "kind": "ed", "api": "construct" if form.startswith("construct") else "import_key", "form": form, "variant": variant, "kid": item["kid"],
+            "corr": item["corr"], "cls": item.get("cls", ""), "mwhy": item.get("why", ""), "curve": cv.name, "elen": cv.bytes, "hasd": False, "hasq": hasq,
+            "hasseed": hasseed, "seed": list(seed) if hasseed else [], "enc": enc_kind,
+            "off": {"d": sn(0), "x": sn(x), "y": sn(yoff)}, "par": par, "junk": junk, "root": root, "wq": NOCW, "links": links,
+            "exc": exc, "key": rec, "kwq": kcw, "cost": 40 + len(links) * (15 if cv.aneg else 45) + (60 if hasseed else 0)}
+
+
+# ------------------------------------------------------------------------------------------ Montgomery curves (x only)
+def mt_corr(c, t, r):
+    t = dict(t)
+    cv = curve(t["c"])
+    p = cv.p
+    if c == "u=0":
+        t["u"] = 0
+    elif c == "u=1":
+        t["u"] = 1
+    elif c == "u=p-1":
+        t["u"] = p - 1
+    elif c == "u=p":
+        t["u"] = p
+    elif c == "u=p+1":
+        t["u"] = p + 1
+    elif c == "u=order 8":
+        if cv.name == "Curve25519":
+            t["u"] = X25519_ORD8
+    elif c == "u+p":
+        t["u"] += p
+    elif c == "u too long":
+        t["u"] += 1 << (8 * cv.bytes)
+    elif c == "u=p+2":
+        t["u"] = p + 2
+    elif c == "u=2p-1":
+        t["u"] = 2 * p - 1
+    elif c == "u=2p":
+        t["u"] = 2 * p
+    elif c == "u=2p+1":
+        t["u"] = 2 * p + 1
+    elif c == "other seed":
+        if len(t["seed"]) == cv.seedlen:
+            old = t["seed"]
+            while t["seed"] == old:
+                t["seed"] = bytes(r.getrandbits(8) for _ in range(cv.seedlen))
+    elif c == "u foreign":
+        t["u"] = cv.Gu                           # a valid public value (the base point) that belongs to another private key
+    elif c == "seed short":
+        t["seed"] = (t["seed"] + b"\x00")[:cv.seedlen - 1]
+    elif c == "seed long":
+        t["seed"] = (t["seed"] + b"\x00\x00")[:cv.seedlen + 1]
+    elif c == "u on twist":
+        t["u"] = 2
+    else:
+        raise ValueError("unknown Montgomery corruption %r" % c)
+    return t
+
+
+def mt_low_order(cv, u):
+    """recorder-side copy of the three doublings (only used to decide whether the judge will need the ladder: cost estimate)"""
+    p = cv.p
+    a24 = 121665 if cv.name == "Curve25519" else 39081
+    X, Z = u % p, 1
+    for _ in range(3):
+        A, B = (X + Z) % p, (X - Z) % p
+        AA, BB = A * A % p, B * B % p
+        E = (AA - BB) % p
+        X, Z = AA * BB % p, E * (AA + a24 * E) % p
+    return Z == 0
+
+
+def mt_case(item, deep):
+    r = random.Random("%d/c05/mt/%s" % (SEED, item["cid"]))
+    t = ec_base(item["kid"])
+    for c in item["corr"]:
+        t = mt_corr(c, t, r)
+    form, variant = item["form"], item.get("variant", "der")
+    cv = curve(t["c"])
+    seed, u = t["seed"], t["u"]
+    hasseed = form in ("construct:seed", "construct:seedQ", "import:pkcs8")
+    hasq = form not in ("construct:seed", "import:pkcs8")
+    oid = CURVE_OID[cv.name]
+    if form == "construct:pub":
+        call = lambda: ECC.construct(curve=cv.lib, point_x=u)  # noqa: E731
+    elif form == "construct:seed":
+        call = lambda: ECC.construct(curve=cv.lib, seed=seed)  # noqa: E731
+    elif form == "construct:seedQ":
+        call = lambda: ECC.construct(curve=cv.lib, seed=seed, point_x=u)  # noqa: E731
+    elif form == "import:pkcs8":
+        body = pkcs8(oid, b"", der_octets(seed))
+        enc = body if variant == "der" else pem(body, "PRIVATE KEY")
+        call = lambda: ECC.import_key(enc)  # noqa: E731
+    elif form == "import:spki":
+        # RFC 7748 5: the encoding of a Curve25519 value has 255 significant bits (the top bit is masked by every receiver)
+        if not 0 <= u < (1 << (255 if cv.name == "Curve25519" else 448)):
+            return None                           # not expressible in the format
+        body = spki(oid, b"", u.to_bytes(cv.bytes, "little"))
+        enc = body if variant == "der" else pem(body, "PUBLIC KEY")
+        call = lambda: ECC.import_key(enc)  # noqa: E731
+    else:
+        raise ValueError(form)
+    key, exc = attempt(call)
+    rec, kcw = ec_key_record(cv, key)
+    ladder = hasseed and len(seed) == cv.seedlen and ((not hasq and key is not None) or (hasq and 0 <= u < (1 << (8 * cv.bytes)) and not mt_low_order(cv, u)))
+    return {"fam": "ec", "kind": "mt", "api": "construct" if form.startswith("construct") else "import_key", "form": form, "variant": variant, "kid": item["kid"],
+            "corr": item["corr"], "cls": item.get("cls", ""), "mwhy": item.get("why", ""), "curve": cv.name, "elen": cv.bytes, "hasd": False, "hasq": hasq,
+            "hasseed": hasseed, "seed": list(seed) if hasseed else [], "enc": "x",
+            "off": {"d": sn(0), "x": sn(u), "y": sn(0)}, "par": 0, "junk": 0, "root": dict(NOROOT), "wq": NOCW, "links": [],
+            "exc": exc, "key": rec, "kwq": kcw, "cost": 40 + (cv.p.bit_length() * (25 if cv.name == "Curve25519" else 40) if ladder else 0)}
+
+
+CASE_FUNCS = {"rsa": rsa_case, "dsa": dsa_case, "elgamal": eg_case, "ws": ws_case, "ed": ed_case, "mt": mt_case}
+
+
+# ------------------------------------------------------------------------------------------ generate()
+def gen_rsa(item, deep):
+    bits, e = item["bits"], item.get("e", 65537)
+    tape = Tape("gen-rsa/%s" % item["cid"])
+    key, exc = attempt(lambda: RSA.generate(bits, randfunc=tape, e=e), seconds=300)
+    rec, kw = rsa_key_record(key, deep)
+    return {"fam": "gen", "what": "rsa", "api": "generate", "bits": bits, "e": sn(e), "deep": bool(deep), "exc": exc, "key": rec, "kw": kw, "tape": tape.used,
+            "cost": 50 + (max(bits, 64) // 64) ** 2 // 2 + (int(bits * (bits // 48) ** 2 / 40) if deep and key is not None else 0)}
+
+
+def gen_dsa(item, deep):
+    bits = item["bits"]
+    tape = Tape("gen-dsa/%s" % item["cid"])
+    hasdom = item["what"] == "dsa-domain"
+    dom = {"p": 0, "q": 0, "g": 0}
+    domw = dsa_w(0, 0, 0, 0, 0, False, False)
+    if hasdom:
+        t = dsa_base(item["kid"])
+        for c in item.get("corr", []):
+            t = dsa_corr(c, t)
+            if t is None:
+                return None
+        dom = {k: t[k] for k in "pqg"}
+        domw = dsa_w(t["p"], t["q"], t["g"], 1, 0, False, False)
+        call = lambda: DSA.generate(bits, randfunc=tape, domain=(dom["p"], dom["q"], dom["g"]))  # noqa: E731
+    else:
+        call = lambda: DSA.generate(bits, randfunc=tape)  # noqa: E731
+    key, exc = attempt(call, seconds=600)
+    if key is None:
+        rec, kw = NOKEY_DSA, dsa_w(0, 0, 0, 0, 0, False, False)
+        links = 0
+    else:
+        kp, kq_, kg, ky = int(key.p), int(key.q), int(key.g), int(key.y)
+        kx = int(key.x) if key.has_private() else 0
+        rec = {"priv": bool(key.has_private()), "p": nat(kp), "q": nat(kq_), "g": nat(kg), "y": nat(ky), "x": nat(kx)}
+        kw = dsa_w(kp, kq_, kg, ky, kx, key.has_private(), deep)
+        links = len(kw["cq"]) + len(kw["cx"]) + (len(kw["mrp"]["chain"]) + len(kw["mrq"]["chain"]) if deep else 0)
+    pb = max(abs(dom["p"]).bit_length() if hasdom else bits, 64)
+    return {"fam": "gen", "what": "dsa", "api": "generate", "bits": bits, "hasdomain": hasdom, "kid": item.get("kid", ""), "corr": item.get("corr", []),
+            "dom": {k: sn(v) for k, v in dom.items()}, "w": domw, "deep": bool(deep), "exc": exc, "key": rec, "kw": kw, "tape": tape.used,
+            "cost": 50 + (len(domw["cq"]) + links) * (pb // 100) ** 2 // 20}
+
+
+def gen_elgamal(item, deep):
+    bits = item["bits"]
+    tape = Tape("gen-eg/%s" % item["cid"])
+    key, exc = attempt(lambda: ElGamal.generate(bits, tape), seconds=900)
+    if key is None:
+        rec, kw = NOKEY_EG, eg_w(0, 0, 0, 0, False, False)
+    else:
+        kp, kg, ky = int(key.p), int(key.g), int(key.y)
+        kx = int(key.x) if key.has_private() else 0
+        rec = {"priv": bool(key.has_private()), "p": nat(kp), "g": nat(kg), "y": nat(ky), "x": nat(kx)}
+        kw = eg_w(kp, kg, ky, kx, key.has_private(), deep)
+    return {"fam": "gen", "what": "elgamal", "api": "generate", "bits": bits, "deep": bool(deep), "exc": exc, "key": rec, "kw": kw, "tape": tape.used,
+            "cost": 50 + (len(kw["cx"]) + (len(kw["mrp"]["chain"]) if deep else 0)) * (max(bits, 100) // 100) ** 2 // 20 + 100}
+
+
+def gen_ecc(item, deep):
+    cv = curve(item["curve"])
+    tape = Tape("gen-ecc/%s" % item["cid"])
+    key, exc = attempt(lambda: ECC.generate(curve=cv.lib, randfunc=tape), seconds=60)
+    rec, kcw = ec_key_record(cv, key)
+    links = []
+    if key is not None and key.has_private() and cv.kind != "mt" and 1 <= int(key.d) < (cv.n if cv.kind == "ws" else 1 << (8 * cv.seedlen)):
+        _, links = mul_links(cv, int(key.d))
+    per = {"ws": cv.p.bit_length() // 16, "ed": 15 if cv.kind == "ed" and cv.aneg else 45, "mt": 0}[cv.kind]
+    return {"fam": "gen", "what": "ecc", "api": "generate", "curve": cv.name, "deep": bool(deep), "exc": exc, "key": rec, "kwq": kcw, "links": links, "tape": tape.used,
+            "cost": 60 + len(links) * per + (cv.p.bit_length() * (25 if cv.name == "Curve25519" else 40) if cv.kind == "mt" and key is not None else 0)}
+
+
+GEN_FUNCS = {"rsa": gen_rsa, "dsa": gen_dsa, "dsa-domain": gen_dsa, "elgamal": gen_elgamal, "ecc": gen_ecc}
 
 
 # ------------------------------------------------------------------------------------------ main
@@ -1011,7 +1321,20 @@ def run_cases(inp):
     out = []
     deep = bool(inp.get("deep"))
     for item in inp["items"]:
-        t = CASE_FUNCS[item["ty"]](item, deep)
+        t = CASE_FUNCS[item["ty"]](item, bool(item.get("deep", deep)))
+        if t is None:
+            continue
+        t["cid"] = item["cid"]
+        t["tid"] = item["cid"]
+        out.append(t)
+    return out
+
+
+def run_generate(inp):
+    out = []
+    deep = bool(inp.get("deep"))
+    for item in inp["items"]:
+        t = GEN_FUNCS[item["what"]](item, bool(item.get("deep", deep)))
         if t is None:
             continue
         t["cid"] = item["cid"]
